@@ -107,6 +107,8 @@ var Mutants = map[string][]Mutant{
 		{"number table larger than the buffer", "path.go", `\t\t'A': 7,\n`, "\t\t'A': 8,\n", "E4.table-bound"},
 	},
 	"C12": {
+		{"PS writes a miter with a round gap natively", "renderers/ps/ps.go", "\\} else if _, ok := miter\\.GapJoiner\\.\\(canvas\\.BevelJoiner\\); !ok \\{\\n\\t\\t\\tstrokeUnsupported = true", "} else if miter.GapJoiner == nil {\n\t\t\tstrokeUnsupported = true", "E6.joiner-support"},
+		{"PDF writes arcs joins natively", "renderers/pdf/pdf.go", `if _, ok := style\.StrokeJoiner\.\(canvas\.ArcsJoiner\); ok \{\n\t\tstrokeUnsupported = true`, "if arcs, ok := style.StrokeJoiner.(canvas.ArcsJoiner); ok && math.IsNaN(arcs.Limit) {\n\t\tstrokeUnsupported = true", "E6.joiner-support"},
 		{"PDF dash phase normalised before odd-length doubling", "renderers/pdf/writer.go", `(\tif len\(dashArray\)%2 == 1 \{\n\t\tdashArray = append\(dashArray, dashArray\.\.\.\)\n\t\}\n)\n((?:.*\n){10})\n\tdashes := append\(dashArray, dashPhase\)`, "$2\n$1\n\tdashes := append(dashArray, dashPhase)", "E6.dash-period"},
 		{"gradient bounds use a fixed stop", "renderers/pdf/writer.go", `bounds = append\(bounds, stops\[i\]\.Offset\)`, "bounds = append(bounds, stops[1].Offset)", "E11.const-index-in-loop"},
 		{"PS fill colour set after gsave", "renderers/ps/ps.go", `\t\tr\.setPaint\(style\.Fill\)\n\t\tif style\.HasStroke\(\) && !strokeUnsupported \{\n\t\t\tr\.w\.Write\(\[\]byte\(" gsave"\)\)\n\t\t\}\n`, "\t\tif style.HasStroke() && !strokeUnsupported {\n\t\t\tr.w.Write([]byte(\" gsave\"))\n\t\t}\n\t\tr.setPaint(style.Fill)\n", "E6.ps-grammar"},
@@ -134,6 +136,7 @@ var Mutants = map[string][]Mutant{
 		{"stroke keeps even-odd star", "renderers/pdf/pdf.go", `\t\t\tif closed \{\n\t\t\t\tr\.w\.Write\(\[\]byte\(" s"\)\)\n\t\t\t\} else \{\n\t\t\t\tr\.w\.Write\(\[\]byte\(" S"\)\)\n\t\t\t\}\n\t\t\} else if style\.HasFill\(\) && style\.HasStroke\(\) \{`, "\t\t\tif closed {\n\t\t\t\tr.w.Write([]byte(\" s\"))\n\t\t\t} else {\n\t\t\t\tr.w.Write([]byte(\" S\"))\n\t\t\t}\n\t\t\tif style.FillRule == canvas.EvenOdd {\n\t\t\t\tr.w.Write([]byte(\"*\"))\n\t\t\t}\n\t\t} else if style.HasFill() && style.HasStroke() {", "E5.grammar"},
 	},
 	"C14": {
+		{"hatch colour taken from the already converted pattern", "renderers/rasterizer/rasterizer.go", `\t\t\tif hatch, ok := style\.Fill\.Pattern\.\(\*canvas\.HatchPattern\); ok \{\n\t\t\t\tstyle\.Fill = hatch\.Fill`, "\t\t\tif hatch, ok := style.Fill.Pattern.SetColorSpace(r.colorSpace).(*canvas.HatchPattern); ok {\n\t\t\t\tstyle.Fill = hatch.Fill", "E12.colorspace-once"},
 		{"last open subpath not closed for the scanner", "path.go", `\tif open \{\n\t\t// implicitly close path\n\t\tras\.Line\(fixedPoint26_6\(first\.X\*dpmm, dy-first\.Y\*dpmm\)\)\n\t\}\n`, "", "E6.implicit-close"},
 		{"open flag also set by MoveTo", "path.go", `\t\t\topen = false\n\t\t\} else \{\n\t\t\topen = true\n`, "\t\t\topen = cmd == CloseCmd && false\n\t\t} else {\n\t\t\topen = false\n", "E6.implicit-close"},
 		{"gradient sampled at pixel coordinates", "renderers/rasterizer/rasterizer.go", `return gradient\.At\(float64\(x\)/dpmm, float64\(size\.Y-y\)/dpmm\)\n\t\t\t\}\)\)\n\t\t\tfill\.`, "return gradient.At(float64(x), float64(size.Y-y)/dpmm)\n\t\t\t}))\n\t\t\tfill.", "E12.units"},
@@ -171,6 +174,7 @@ var Mutants = map[string][]Mutant{
 		{"Linebreak looks at items[b+1] unguarded", "text/linebreak.go", `\(len\(lb\.items\) <= b\+1 \|\| lb\.items\[b\+1\]\.Type != PenaltyType\)`, `lb.items[b+1].Type != PenaltyType`, "E4.neighbour-guard"},
 	},
 	"C18": {
+		{"sub/superscript size scaled after MmPerEm", "font.go", `\t\tface\.YOffset = int32\(float64\(yOffset\) / scale\)\n\t\}\n\tface\.MmPerEm = face\.Size / float64\(face\.Font\.Head\.UnitsPerEm\)\n\treturn face\n`, "\t\tface.YOffset = int32(float64(yOffset) / scale)\n\t}\n\tface.MmPerEm = face.Size / float64(face.Font.Head.UnitsPerEm)\n\tif face.Variant == FontSubscript {\n\t\tface.Size *= 0.999\n\t}\n\treturn face\n", "E11.derived-scale"},
 		{"W range entry carries the next run's width", "renderers/pdf/writer.go", `W = append\(W, j, k-1, widths\[j\]\)`, "W = append(W, j, k-1, width)", "E5.w-run"},
 		{"trailing W entry stops at the sentinel", "renderers/pdf/writer.go", `for _, w := range widths\[i:\] \{`, "for _, w := range widths[i:j] {", "E5.w-run"},
 		{"subsetter re-created per writing direction", "renderers/pdf/writer.go", `\tif _, ok := w\.fontSubset\[font\]; !ok \{\n(.*\n)?\t\tw\.fontSubset\[font\] = canvas\.NewFontSubsetter\(\)\n\t\}\n`, "\tw.fontSubset[font] = canvas.NewFontSubsetter()\n", "E5.subset-once"},
@@ -179,6 +183,7 @@ var Mutants = map[string][]Mutant{
 		{"vertical fonts written as horizontal", "renderers/pdf/writer.go", `w\.writeFonts\(w\.fontsV, true\)`, `w.writeFonts(w.fontsV, false)`, "E5.fontmaps"},
 	},
 	"C19": {
+		{"height decided by the width attribute", "svg.go", `if attrHeight != "" && !strings\.HasSuffix\(attrHeight, "%"\) \{`, "if attrHeight != \"\" && !strings.HasSuffix(attrWidth, \"%\") {", "E11.viewbox-mirror"},
 		{"parsePoints fills a package-level scratch buffer", "svg.go", `func \(svg \*svgParser\) parsePoints\(v string\) \[\]float64 \{\n((?:.*\n){4})\tvals := \[\]float64\{\}\n`, "var scratchNumbers []float64\n\nfunc (svg *svgParser) parsePoints(v string) []float64 {\n$1\tvals := scratchNumbers[:0]\n", "E11.returned-scratch"},
 		{"miter limit written into the asserted copy only", "svg.go", `\t\t\tmiter\.Limit = svg\.state\.strokeMiterLimit\n\t\t\tsvg\.ctx\.SetStrokeJoiner\(miter\)\n`, "\t\t\tmiter.Limit = svg.state.strokeMiterLimit\n", "E11.copy-store"},
 		{"translate(tx) moves along both axes", "svg.go", `m = m\.Translate\(d\[0\], 0\.0\)`, "m = m.Translate(d[0], d[0])", "E11.svg-transform"},
